@@ -215,6 +215,20 @@ def narrow_corpus(ctx):
             one_case(ctx, pred, ref, metric, thr, "corpus.narrow-dtype")
 
 
+def big_and_small_corpus(ctx):
+    """reference with a large id covered by a large-id fragment (the better one) and a small-id fragment that alone still
+    meets the threshold: pair codes beyond 2^32 next to small ones"""
+    for dt, (r1, pa, pb) in ((np.uint32, (70000, 66000, 3)), (np.uint64, (70000, 66000, 3)), (np.uint32, (4_000_000, 1100, 2))):
+        ref = np.zeros((1, 110), dt)
+        pred = np.zeros((1, 110), dt)
+        ref[0, 2:102] = r1
+        pred[0, 2:62] = pa          # IoU 0.6
+        pred[0, 62:92] = pb         # IoU 0.3
+        for metric, thr in (("IOU", (1, 4)), ("DSC", (2, 5))):
+            ctx.count("large_and_small_ids")
+            one_case(ctx, pred, ref, metric, thr, "corpus.big-and-small-ids")
+
+
 def corpus(ctx):
     # repaired defect: with a lower-is-better metric a worsening fragment used to be merged
     ref = np.zeros((12, 12), np.uint8)
@@ -386,6 +400,7 @@ def run(ctx):
     corpus(ctx)
     singleton_corpus(ctx)
     narrow_corpus(ctx)
+    big_and_small_corpus(ctx)
     rng = ctx.rng
     for i in range(ctx.scale(6, 30)):
         p, r = big_id_chain(rng)
